@@ -1350,7 +1350,7 @@ class CombiningKindAttr(EnumAttribute[CombiningKindFlag]):
     @classmethod
     def parse_parameter(cls, parser: AttrParser) -> CombiningKindFlag:
         with parser.in_angle_brackets():
-            return CombiningKindFlag(parser.parse_identifier())
+            return parser.parse_str_enum(CombiningKindFlag)
 
 
 @irdl_op_definition
